@@ -916,6 +916,7 @@ void var_opt_sketch<T, A>::decrease_k_by_1() {
     // exact mode, but we have some data
     --k_;
     if (h_ > k_) {
+      filled_data_ = true; // h_ == k_ + 1 items: every slot holds one, as at the end of the warmup phase
       transition_from_warmup();
     }
   } else if ((h_ > 0) && (r_ > 0)) {
@@ -928,7 +929,16 @@ void var_opt_sketch<T, A>::decrease_k_by_1() {
     const uint32_t old_final_r_idx = (h_ + 1 + r_) - 1;
     if (old_final_r_idx != k_) throw std::logic_error("gadget in invalid state");
     
-    swap_values(old_final_r_idx, old_gap_idx);
+    // the last R slot falls outside of the sketch once k is reduced, so its item moves into the gap for good
+    if (filled_data_) {
+      data_[old_gap_idx] = std::move(data_[old_final_r_idx]);
+    } else {
+      new (&data_[old_gap_idx]) T(std::move(data_[old_final_r_idx])); // the gap holds no item yet
+    }
+    data_[old_final_r_idx].~T();
+    weights_[old_gap_idx] = weights_[old_final_r_idx];
+    if (marks_ != nullptr) marks_[old_gap_idx] = marks_[old_final_r_idx];
+    weights_[old_final_r_idx] = -1.0;
     filled_data_ = true; // we just filled the gap, and no need to check previous state
 
     // now we pull an item out of H; any item is ok, but if we grab the rightmost and then
@@ -956,6 +966,7 @@ void var_opt_sketch<T, A>::decrease_k_by_1() {
     const uint32_t rightmost_r_idx = (1 + r_) - 1;
     swap_values(r_idx_to_delete, rightmost_r_idx);
     weights_[rightmost_r_idx] = -1.0;
+    data_[rightmost_r_idx].~T(); // the ejected item: this slot is outside of the sketch from now on
 
     --k_;
     --r_;
